@@ -586,6 +586,13 @@ type fsrc struct {
 	Of    ssa.Value
 	Entry ssa.Value
 	Name  string
+	Sub   *subAt // the field is itself a struct assembled in place (nested composite literal): its fields are those at Sub
+}
+
+type subAt struct {
+	Addr ssa.Value
+	B    *ssa.BasicBlock
+	Idx  int
 }
 
 func (s fsrc) String() string {
@@ -596,6 +603,8 @@ func (s fsrc) String() string {
 		return describe(s.Of) + "." + s.Name
 	case s.Entry != nil:
 		return "entry(" + describe(s.Entry) + ")." + s.Name
+	case s.Sub != nil:
+		return "struct-in-place"
 	}
 	return "unknown"
 }
@@ -631,10 +640,20 @@ func fieldsAt(addr ssa.Value, b *ssa.BasicBlock, idx int, depth int) map[string]
 		return m
 	}
 	i := idx - 1
+	b0, idx0 := b, idx
 	for {
 		for ; i >= 0; i-- {
 			in := b.Instrs[i]
 			if s, ok := in.(*ssa.Store); ok {
+				if fa2, ok := s.Addr.(*ssa.FieldAddr); ok {
+					if fa1, ok := fa2.X.(*ssa.FieldAddr); ok && fa1.X == addr {
+						n := fieldName(fa1)
+						if _, done := out[n]; !done {
+							out[n] = fsrc{Sub: &subAt{fa1, b0, idx0}, Name: n}
+						}
+						continue
+					}
+				}
 				if s.Addr == addr {
 					sub := fieldsOfValue(s.Val, depth+1)
 					for _, f := range missing() {
